@@ -2,7 +2,7 @@
    Only statements closed by `exact`; proofs live in Cursor/BinaryProofs.v. *)
 From Coq Require Import List Arith Bool Lia.
 Import ListNotations.
-From CV Require Import Cursor.BinaryState Cursor.BinaryProofs Cursor.IfsCursor.
+From CV Require Import Cursor.BinaryState Cursor.BinaryProofs Cursor.IfsCursor Passes.Gcda Passes.GcdaProofs.
 
 (* Every proposed range is inside the current instance list, for EVERY verdict function
    (of step number, current list and cursor), every list; the run ends within (n+1)(n+2)
@@ -45,6 +45,33 @@ Theorem C06_ifs_tries_both_values :
   forall (fuel : nat) (s : bst),
   ifs_enum (2 * fuel) (s, false) = flat_map (fun r => [(r, false); (r, true)]) (enum fuel s).
 Proof. exact ifs_enum_spec. Qed.
+
+(* gcda functions.  For every header, every list of function records (any sizes) and every cursor inside the record list,
+   the candidate GCDABinaryPass.transform builds from the byte offsets gcov-dump reports is the file with exactly the
+   records [index, end) removed: the byte-level slicing IS the record-level cut of the binary-search loop. *)
+Theorem C06_gcda_candidate_is_record_cut :
+  forall (B:Type) (hdr:list B) (recs:list (list B)) (s:bst), index s < length recs ->
+  gcda_transform (gfile hdr recs) (offsets (length hdr) recs) s = gfile hdr (cut recs (index s) (end_ s)).
+Proof. exact (@gcda_transform_cut). Qed.
+
+(* ... and it is strictly shorter than the file when no record is empty (the pass's own assert never fires) *)
+Theorem C06_gcda_candidate_shorter :
+  forall (B:Type) (hdr:list B) (recs:list (list B)) (s:bst),
+  index s < end_ s -> end_ s <= length recs -> Forall (fun r => r <> []) recs ->
+  length (gcda_transform (gfile hdr recs) (offsets (length hdr) recs) s) < length (gfile hdr recs).
+Proof. exact (@gcda_transform_shorter). Qed.
+
+(* This pass restarts with a fresh cursor after every accepted removal (advance_on_success = new).  Its loop still ends
+   within the fuel for every record list and, for a monotone test, leaves exactly the required records. *)
+Theorem C06_gcda_exact_monotone :
+  forall (B:Type) (req : list B -> bool) (recs:list (list B)),
+  exists log, gcda_run (ok_mono req) recs = Done (filter req recs) log.
+Proof. exact (@gcda_run_exact). Qed.
+
+Example C06_example_gcda :
+  gcda_transform (gfile [9;9] [[1];[2;2];[3;3;3];[4]]) (offsets 2 [[1];[2;2];[3;3;3];[4]]) (mkb 1 2 4) = [9;9;1;4]
+  /\ exists log, gcda_run (ok_mono (fun r => Nat.eqb (hd 0 r) 2)) [[1];[2;2];[3;3;3];[4]] = Done [[2;2]] log.
+Proof. split; [vm_compute; reflexivity|eexists; vm_compute; reflexivity]. Qed.
 
 Example C06_example_mono :
   reduce (ok_mono (fun x => Nat.eqb x 2 || Nat.eqb x 5)) [0;1;2;3;4;5;6] =
